@@ -1,6 +1,7 @@
 From FJ Require Import Lib.Base.
 (* C03 - proofs about Model/Macro.v (the preprocessor) and Spec/InlineSpec.v (the textual inliner). *)
 From FJ Require Import Model.Ast Model.Expr Model.Macro Spec.InlineSpec.
+From Coq Require Import DecimalString DecimalN.
 Local Open Scope string_scope.
 
 (* ------------------------------------------------------------------------------------------ *)
@@ -958,6 +959,9 @@ Qed.
 (* ------------------------------------------------------------------------------------------ *)
 (** * F. The whole program *)
 
+Lemma string_app_assoc a b c : ((a ++ b) ++ c = a ++ (b ++ c))%string.
+Proof. induction a as [|x a IH]; simpl; congruence. Qed.
+
 Lemma ends_with_app suf a : ends_with suf (a ++ suf) = true.
 Proof.
   induction a as [|c a IH].
@@ -967,7 +971,8 @@ Qed.
 
 Lemma start_label_is_start prefix : is_start_label (start_label prefix) = true.
 Proof.
-  unfold is_start_label, start_label, local_label. rewrite (append_assoc_s prefix). apply ends_with_app.
+  unfold is_start_label, start_label, local_label.
+  rewrite <- (string_app_assoc prefix MACRO_SEPARATOR_STRING STARTING_LABEL_IN_MACROS_STRING). apply ends_with_app.
 Qed.
 
 Section Main.
@@ -1005,7 +1010,7 @@ Proof.
   unfold wf_macro in H. apply andb_prop in H as [H _]. now apply andb_prop in H as [_ H].
 Qed.
 
-Lemma sim_fuel n : HRec w D (rec_of n) (inline_call impl_fresh D n).
+Lemma sim_fuel n : HRec w (rec_of n) (inline_call impl_fresh D n).
 Proof.
   induction n as [|n IH]; intros f E; [discriminate|]. injection E as <-.
   intros mn args_i args_s pi st st' P F N Hr He. rewrite resolve_macro_aux_eq in Hr. simpl in He.
@@ -1043,3 +1048,790 @@ Proof.
 Qed.
 
 End Main.
+
+(* ------------------------------------------------------------------------------------------ *)
+(** * G. PreprocessorData.finish, and the final statement *)
+
+Lemma uint_ident d : is_ident (NilEmpty.string_of_uint d) = true.
+Proof. induction d; simpl; auto. Qed.
+
+Lemma dec_ident n : is_ident (dec n) = true.
+Proof. apply uint_ident. Qed.
+
+Lemma is_ident_app a b : is_ident (a ++ b) = is_ident a && is_ident b.
+Proof. apply string_forall_app. Qed.
+
+Definition labels_nice (c : core) : Prop := Forall (fun kv => niceb (fst kv) = true) (c_labels c).
+
+Lemma dict_set_forall {A} (Q : string * A -> Prop) d k v : Forall Q d -> Q (k, v) -> Forall Q (dict_set d k v).
+Proof.
+  induction d as [|[k' v'] d IH]; simpl; intros F H; [constructor; auto|]. inversion F; subst.
+  destruct (String.eqb k' k); constructor; auto.
+Qed.
+
+Lemma dict_get_set_other {A} (d : list (string * A)) k v s : s <> k -> dict_get (dict_set d k v) s = dict_get d s.
+Proof.
+  intros N. induction d as [|[k' v'] d IH]; simpl.
+  - destruct (String.eqb k s) eqn:E; [apply String.eqb_eq in E; congruence | reflexivity].
+  - destruct (String.eqb k' k) eqn:E; simpl.
+    + apply String.eqb_eq in E. subst k'. destruct (String.eqb k s) eqn:E2; [apply String.eqb_eq in E2; congruence | reflexivity].
+    + now rewrite IH.
+Qed.
+
+Lemma wflip_label_nice n : niceb (wflip_start_label ++ dec n) = true.
+Proof.
+  apply dotted_nice. unfold dotted_ident. rewrite string_forall_app. simpl. apply (ident_dotted _ (dec_ident n)).
+Qed.
+
+Lemma step_core_nil_labels w op c c' :
+  prim_ok op = true -> step_core w [] op c = ROk c' -> labels_nice c -> labels_nice c'.
+Proof.
+  unfold labels_nice. intros Hp Hs L. destruct op as [f j p|x v r p|e p|name p|? ? ?|? ? ? ? ?|e p|e p]; simpl in Hs; try discriminate.
+  - apply rbind_ok in Hs as (? & _ & Hs). apply rbind_ok in Hs as (? & _ & Hs). now injection Hs as <-.
+  - apply rbind_ok in Hs as (? & _ & Hs). apply rbind_ok in Hs as (? & _ & Hs). apply rbind_ok in Hs as (? & _ & Hs).
+    now injection Hs as <-.
+  - apply rbind_ok in Hs as (? & _ & Hs). apply rbind_ok in Hs as (n & _ & Hs). destruct (n <=? 0)%Z; [discriminate|].
+    destruct (negb _); [discriminate|]. destruct (_ >? _)%Z; [discriminate|]. now injection Hs as <-.
+  - unfold insert_label in Hs. destruct (dict_mem (c_labels c) name); [discriminate|]. injection Hs as <-. simpl.
+    apply dict_set_forall; [exact L|]. unfold prim_ok in Hp. simpl in Hp. exact Hp.
+  - apply rbind_ok in Hs as (? & _ & Hs). apply rbind_ok in Hs as (a & _ & Hs). destruct (negb _); [discriminate|].
+    injection Hs as <-. simpl. apply dict_set_forall; [exact L|]. apply wflip_label_nice.
+  - apply rbind_ok in Hs as (? & _ & Hs). apply rbind_ok in Hs as (r & _ & Hs). destruct (negb _); [discriminate|].
+    now injection Hs as <-.
+Qed.
+
+Lemma prim_labels_nice w D' rec' P : forall st st',
+  Forall (fun s => prim_ok s = true) P -> run_ops w D' rec' [] "" P st = ROk st' ->
+  labels_nice (ps_core st) -> labels_nice (ps_core st').
+Proof.
+  induction P as [|op P IH]; intros st st' F Hr L; simpl in Hr; [now injection Hr as <-|].
+  inversion F as [|? ? Hop FP]; subst. apply rbind_ok in Hr as (s1 & Hs & Hr). eapply IH; [exact FP | exact Hr |].
+  assert (Hp : stmt_primitive op = true) by (unfold prim_ok in Hop; now apply andb_prop in Hop as [? _]).
+  rewrite step_op_prim in Hs by exact Hp. unfold on_core in Hs. apply rbind_ok in Hs as (c' & Hc & Hs). injection Hs as <-.
+  simpl. eapply step_core_nil_labels; eauto.
+Qed.
+
+Lemma insert_start_labels_spec starts : forall c c',
+  Forall (fun e : Z * string => is_start_label (snd e) = true) starts ->
+  insert_start_labels starts c = ROk c' ->
+  c_rops c' = c_rops c /\ forall s, is_start_label s = false -> dict_get (c_labels c') s = dict_get (c_labels c) s.
+Proof.
+  induction starts as [|[a l] starts IH]; intros c c' F H; simpl in H.
+  - injection H as <-. auto.
+  - inversion F as [|? ? Hl F']; subst. simpl in Hl. destruct (existsb (Z.eqb a) (c_lbladdrs c)); [eauto|].
+    apply rbind_ok in H as (c1 & H1 & H). unfold insert_label in H1. destruct (dict_mem (c_labels c) l); [discriminate|].
+    injection H1 as <-. destruct (IH _ _ F' H) as [E1 E2]. simpl in *. split; [exact E1|].
+    intros s Hs. rewrite E2 by exact Hs. apply dict_get_set_other. intros ->. congruence.
+Qed.
+
+Lemma not_nice_not_label (c : core) s : labels_nice c -> niceb s = false -> dict_mem (c_labels c) s = false.
+Proof.
+  unfold labels_nice, dict_mem. intros L Hs. destruct (dict_get (c_labels c) s) eqn:E; [|reflexivity].
+  exfalso. assert (In s (map fst (c_labels c))).
+  { destruct (in_dec string_dec s (map fst (c_labels c))) as [i|n]; [exact i|]. apply dict_get_none_iff in n. congruence. }
+  apply in_map_iff in H as ([k v] & <- & Hin). rewrite Forall_forall in L. apply L in Hin. simpl in *. congruence.
+Qed.
+
+(* C03_inline.  The macro program and the program obtained by inlining it (generated names as the code builds them)
+   expand to the same op list, and to label tables that agree on every name that is not a macro-start label
+   (`…---:start:`, debugging information that no expression can refer to).  The inlined program is macro free. *)
+Theorem inline_correct w D depth ops lbls P :
+  wf_tree D = true ->
+  resolve_macros w D depth = ROk (ops, lbls) ->
+  inline impl_fresh D (N.to_nat depth) = Some P ->
+  Forall (fun s => stmt_primitive s = true) P /\
+  exists lbls', resolve_macros w (prim_tree P) depth = ROk (ops, lbls') /\
+                forall s, is_start_label s = false -> dict_get lbls' s = dict_get lbls s.
+Proof.
+  intros WF Hr Hi. unfold resolve_macros in Hr. apply rbind_ok in Hr as (st & Hm & Hr). apply rbind_ok in Hr as (cf & Hf & Hr).
+  injection Hr as <- <-. destruct (inline_sim w D WF depth st P Hm Hi) as (F & H & S). split.
+  { eapply Forall_impl; [|exact F]. intros a Ha. unfold prim_ok in Ha. now apply andb_prop in Ha as [? _]. }
+  set (m0 := mkmacro [] [] P "" (mkpos "" "" 1%N)).
+  set (st0 := mkps init_core [(0%Z, start_label "")]).
+  destruct (H (prim_tree P) (rec_of w (prim_tree P) (N.to_nat depth)) st0 eq_refl) as (s2 & R2 & C2 & S2).
+  assert (Em : resolve_main w (prim_tree P) depth = ROk s2).
+  { unfold resolve_main. rewrite resolve_macro_aux_eq. exact R2. }
+  assert (L2 : labels_nice (ps_core s2)) by (eapply prim_labels_nice; [exact F | exact R2 | constructor]).
+  unfold finish in Hf. rewrite <- C2 in Hf.
+  set (c1 := mkcore (c_addr (ps_core s2)) (patch_last_wflip (c_rops (ps_core s2)) (c_addr (ps_core s2)))
+                    (c_labels (ps_core s2)) (c_lbladdrs (ps_core s2)) (c_segidx (ps_core s2))) in *.
+  destruct (insert_start_labels_spec _ _ _ (S (Forall_nil _)) Hf) as [E1 E2].
+  unfold resolve_macros. rewrite Em. simpl. unfold finish. rewrite S2. fold c1. simpl.
+  destruct (existsb (Z.eqb 0) (c_lbladdrs (ps_core s2))).
+  - simpl. eexists. split; [now rewrite E1|]. intros s Hs. now rewrite E2.
+  - unfold insert_label. rewrite (not_nice_not_label c1 (start_label "")); [|exact L2|reflexivity]. simpl.
+    eexists. split; [now rewrite E1|]. intros s Hs. rewrite E2 by exact Hs. apply dict_get_set_other. intros ->.
+    rewrite start_label_is_start in Hs. discriminate.
+Qed.
+
+(* ------------------------------------------------------------------------------------------ *)
+(** * H. rep *)
+
+(* a parameter dictionary as the preprocessor builds them from a well-formed tree: replacements are folded, and neither
+   they nor the keys contain a name with ':' (the hygienic iterator names) *)
+Definition hygienic_dict (pd : pdict) : Prop :=
+  (forall k v, dict_get pd k = Some v -> minimal v /\ nice_expr v) /\ (forall s, niceb s = false -> dict_get pd s = None).
+
+Lemma R_sub_hygienic pd b : R_sub pd b -> good_binding b -> hygienic_dict pd.
+Proof. intros R G. split; [intros k v; apply (R_sub_values pd b k v R G) | intros s; apply (R_sub_no_key pd b s R G)]. Qed.
+
+(* m args[i := j] for j = i, i+1, ..., i+n-1, each with the iterator substituted simultaneously with the parameters *)
+Fixpoint rep_calls (rec : option (macro_name -> list expr -> string -> pstate -> res pstate)) (mn : macro_name)
+         (pd : pdict) (it : string) (args : list expr) (prefix : string) (pos : code_pos) (n : nat) (i : Z) (st : pstate)
+  : res pstate :=
+  match n with
+  | O => ROk st
+  | S n' =>
+      match eval_list (ov pd it i) args with
+      | Ok args_i => rbind (call rec mn args_i (rep_path prefix pos mn i) st) (rep_calls rec mn pd it args prefix pos n' (i + 1)%Z)
+      | LibError k => RErr (ExprEvalNew k)
+      | RawExn x => RErr (RawPy x)
+      end
+  end.
+
+Lemma rep_loop_calls rec mn pd it args args2 prefix pos :
+  hygienic_dict pd -> Forall nice_expr args -> is_ident it = true ->
+  let hyg := hygienic_iterator prefix pos it in
+  Forall2 (fun a a2 => exists a1, eval_new (subst_one it (ELbl hyg)) a = Ok a1 /\ eval_new (subst_of pd) a1 = Ok a2) args args2 ->
+  forall n i st st1,
+    rep_loop rec mn hyg args2 prefix pos n i st = ROk st1 -> rep_calls rec mn pd it args prefix pos n i st = ROk st1.
+Proof.
+  intros [Hv Hk] Na Hit hyg F. assert (Hh : niceb hyg = false) by (apply hyg_not_nice; exact Hit).
+  induction n as [|n IH]; intros i st st1 Hl; simpl in *; [exact Hl|].
+  destruct (eval_list (subst_one hyg (EInt i)) args2) as [args_i| |] eqn:Ei; try discriminate.
+  assert (E : eval_list (ov pd it i) args = Ok args_i).
+  { apply eval_list_ok. apply eval_list_ok in Ei. clear Hl IH. revert args_i Ei.
+    induction F as [|a a2 t t2 (a1 & E1 & E2) _ IHF]; intros args_i Ei; inversion Ei; subst; constructor.
+    - inversion Na; subst. rewrite <- (rep_arg_fusion pd it hyg i a a1 a2); auto.
+      + intros k v Ev. destruct (Hv k v Ev). split; [assumption | now apply not_nice_not_in].
+      + now apply not_nice_not_in.
+    - inversion Na; subst. apply IHF; auto. }
+  rewrite E. apply rbind_ok in Hl as (sa & Hc & Hl). rewrite Hc. simpl. auto.
+Qed.
+
+(* C03_rep: when the code expands `rep(times, it) name args`, the count evaluates to some n, and the result is that of
+   the n calls  name args[it := 0]; ...; name args[it := n-1]  in sequence (nothing at all when n <= 0) *)
+Theorem rep_unrolls w D rec pd prefix times it name args pos st st1 :
+  hygienic_dict pd -> Forall nice_expr args -> is_ident it = true ->
+  step_op w D rec pd prefix (SRepCall times it name args pos) st = ROk st1 ->
+  exists t' n, eval_new (subst_of pd) times = Ok t' /\ exact_eval (labels_env (ps_core st)) t' = Ok n /\
+               rep_calls rec (call_name name args) pd it args prefix pos (Z.to_nat n) 0 st = ROk st1.
+Proof.
+  intros Hpd Na Hit Hs. simpl in Hs.
+  apply rbind_ok in Hs as (args1 & H1 & Hs). apply of_eval_new_ok in H1.
+  apply rbind_ok in Hs as (t' & Ht & Hs). apply of_eval_new_ok in Ht.
+  apply rbind_ok in Hs as (args2 & H2 & Hs). apply of_eval_new_ok in H2.
+  apply rbind_ok in Hs as (n & Hn & Hs). exists t', n. split; [exact Ht|].
+  unfold calc in Hn. destruct (exact_eval (labels_env (ps_core st)) t') as [z| |] eqn:Ez; try discriminate.
+  injection Hn as ->. split; [reflexivity|]. destruct (n =? 0)%Z eqn:E0.
+  - apply Z.eqb_eq in E0. subst. simpl. exact Hs.
+  - apply rbind_ok in Hs as ([] & _ & Hs). eapply rep_loop_calls; eauto.
+    apply eval_list_ok in H1. apply eval_list_ok in H2. exact (Forall2_compose _ _ _ _ _ H1 H2).
+Qed.
+
+Corollary rep_zero w D rec pd prefix times it name args pos st st1 t' :
+  step_op w D rec pd prefix (SRepCall times it name args pos) st = ROk st1 ->
+  eval_new (subst_of pd) times = Ok t' -> exact_eval (labels_env (ps_core st)) t' = Ok 0%Z -> st1 = st.
+Proof.
+  intros Hs Ht Hz. simpl in Hs.
+  apply rbind_ok in Hs as (args1 & H1 & Hs). apply rbind_ok in Hs as (t2 & Ht2 & Hs). apply of_eval_new_ok in Ht2.
+  rewrite Ht in Ht2. injection Ht2 as <-. apply rbind_ok in Hs as (args2 & H2 & Hs). apply rbind_ok in Hs as (n & Hn & Hs).
+  unfold calc in Hn. rewrite Hz in Hn. injection Hn as <-. simpl in Hs. now injection Hs as <-.
+Qed.
+
+(* C03_subst_once, syntactic form: the dictionary pass of the code is the textual one-pass substitution, then folding *)
+Theorem eval_new_is_subst_then_fold pd b e :
+  R_sub pd b -> eval_new (subst_of pd) e = eval_new empty_sub (subst (lookup b) e).
+Proof. intros R. symmetry. apply subst_eval_new. now apply comp_empty. Qed.
+
+(* ------------------------------------------------------------------------------------------ *)
+(** * I. Generated names: different expansions get different names *)
+
+Definition nochar (c : ascii) (s : string) : bool := string_forall (fun x => negb (Ascii.eqb x c)) s.
+
+Fixpoint split (c : ascii) (s : string) : list string :=
+  match s with
+  | EmptyString => [EmptyString]
+  | String x r =>
+      if Ascii.eqb x c then EmptyString :: split c r
+      else match split c r with h :: t => String x h :: t | [] => [String x EmptyString] end
+  end.
+
+Lemma split_nochar c a : nochar c a = true -> split c a = [a].
+Proof.
+  unfold nochar. induction a as [|x a IH]; simpl; [reflexivity|]. intros H. apply andb_prop in H as [Hx Ha].
+  apply negb_true_iff in Hx. now rewrite Hx, (IH Ha).
+Qed.
+
+Lemma split_app_sep c a b : nochar c a = true -> split c (a ++ String c b) = a :: split c b.
+Proof.
+  unfold nochar. induction a as [|x a IH]; simpl; [now rewrite Ascii.eqb_refl|]. intros H. apply andb_prop in H as [Hx Ha].
+  apply negb_true_iff in Hx. now rewrite Hx, (IH Ha).
+Qed.
+
+Lemma nochar_app c a b : nochar c (a ++ b) = nochar c a && nochar c b.
+Proof. apply string_forall_app. Qed.
+
+Lemma forall_nochar (f : ascii -> bool) c s : f c = false -> string_forall f s = true -> nochar c s = true.
+Proof.
+  intros Hc. unfold nochar. induction s as [|x s IH]; simpl; [reflexivity|]. intros H. apply andb_prop in H as [Hx Hs].
+  rewrite (IH Hs), andb_true_r. apply negb_true_iff. destruct (Ascii.eqb x c) eqn:E; [|reflexivity].
+  apply Ascii.eqb_eq in E. subst. congruence.
+Qed.
+
+Lemma ident_nochar c s : ident_char c = false -> is_ident s = true -> nochar c s = true.
+Proof. apply forall_nochar. Qed.
+
+Lemma dotted_nochar c s : ident_char c = false -> c <> "."%char -> dotted_ident s = true -> nochar c s = true.
+Proof.
+  intros H1 H2. apply forall_nochar. rewrite H1. simpl. apply Ascii.eqb_neq. exact H2.
+Qed.
+
+(* frames joined by "---" *)
+Fixpoint join (fs : list string) : string :=
+  match fs with
+  | [] => ""
+  | [f] => f
+  | f :: r => f ++ "---" ++ join r
+  end.
+
+Lemma join_snoc fs f : join (fs ++ [f]) = match fs with [] => f | _ => join fs ++ "---" ++ f end.
+Proof.
+  induction fs as [|g fs IH]; [reflexivity|]. destruct fs as [|h fs]; [reflexivity|].
+  change (join ((g :: h :: fs) ++ [f])) with (g ++ "---" ++ join ((h :: fs) ++ [f])). rewrite IH.
+  change (join (g :: h :: fs)) with (g ++ "---" ++ join (h :: fs)).
+  now rewrite !string_app_assoc.
+Qed.
+
+Lemma join_nonempty fs : fs <> [] -> Forall (fun f => f <> "") fs -> join fs <> "".
+Proof.
+  destruct fs as [|f fs]; [congruence|]. intros _ F. inversion F; subst. destruct fs; simpl; [assumption|].
+  destruct f; [congruence | discriminate].
+Qed.
+
+(* the "short:lN:name(k)" / "short:lN:repI:name(k)" part that one call adds to the path *)
+Definition frame (s : step) : string :=
+  match sp_call s, sp_rep s with
+  | SMacroCall name args pos, _ => short_str pos ++ ":" ++ macro_name_str (call_name name args)
+  | SRepCall _ _ name args pos, Some i => short_str pos ++ ":rep" ++ decZ i ++ ":" ++ macro_name_str (call_name name args)
+  | SRepCall _ _ name args pos, None => short_str pos ++ ":" ++ macro_name_str (call_name name args)
+  | _, _ => ""
+  end.
+
+Definition call_step (s : step) : bool :=
+  match sp_call s with SMacroCall _ _ _ | SRepCall _ _ _ _ _ => true | _ => false end.
+
+Lemma step_path_frame prefix s : call_step s = true -> step_path prefix s = with_prefix prefix (frame s).
+Proof. unfold call_step, step_path, frame. destruct (sp_call s); try discriminate; intros _; [reflexivity|]. now destruct (sp_rep s). Qed.
+
+Lemma render_path_join pi :
+  Forall (fun s => call_step s = true /\ frame s <> "") pi -> render_path pi = join (map frame pi).
+Proof.
+  induction pi as [|s pi IH] using rev_ind; intros F; [reflexivity|].
+  apply Forall_app in F as [F1 F2]. inversion F2 as [|? ? [Hc Hn] _]; subst.
+  rewrite render_path_snoc, step_path_frame by exact Hc. rewrite map_app. simpl. rewrite join_snoc, (IH F1).
+  unfold with_prefix. destruct (map frame pi) eqn:E.
+  - reflexivity.
+  - rewrite <- E. destruct (String.eqb (join (map frame pi)) "") eqn:Ej; [|reflexivity].
+    apply String.eqb_eq in Ej. exfalso. revert Ej. apply join_nonempty; [rewrite E; discriminate|].
+    apply Forall_forall. intros f Hf. apply in_map_iff in Hf as (x & <- & Hx). rewrite Forall_forall in F1. now apply F1.
+Qed.
+
+Definition dashes (fs : list string) (l : string) : list string := (flat_map (fun f => [f; ""; ""]) fs ++ [l])%list.
+
+Lemma split_dashes fs l :
+  Forall (fun f => nochar "-" f = true) fs -> nochar "-" l = true -> fs <> [] ->
+  split "-" (join fs ++ "---" ++ l) = dashes fs l.
+Proof.
+  intros F Hl. induction fs as [|f fs IH]; [congruence|]. intros _. inversion F; subst. destruct fs as [|g fs].
+  - simpl. rewrite (split_app_sep "-" f) by assumption. simpl. now rewrite (split_nochar _ _ Hl).
+  - change (join (f :: g :: fs)) with (f ++ "---" ++ join (g :: fs)). rewrite !string_app_assoc.
+    set (rest := join (g :: fs) ++ "---" ++ l) in *. simpl.
+    rewrite (split_app_sep "-" f) by assumption. simpl. unfold dashes in *. simpl. do 3 f_equal. apply IH; [assumption|discriminate].
+Qed.
+
+Lemma dashes_inj fs1 fs2 l1 l2 :
+  dashes fs1 l1 = dashes fs2 l2 -> fs1 = fs2 /\ l1 = l2.
+Proof.
+  unfold dashes. revert fs2. induction fs1 as [|f fs1 IH]; intros [|g fs2] H; simpl in H.
+  - injection H as ->. auto.
+  - injection H as _ H. destruct fs2; discriminate.
+  - injection H as _ H. destruct fs1; discriminate.
+  - injection H as -> H. destruct (IH _ H). subst. auto.
+Qed.
+
+Definition step_names_ok (s : step) : Prop :=
+  call_step s = true /\ nochar "-" (frame s) = true /\ frame s <> "".
+
+(* C03_fresh, part 1: the name of a local label determines the expansion path (as the list of its frames) and the label *)
+Theorem impl_fresh_injective pi1 l1 pi2 l2 :
+  Forall step_names_ok pi1 -> Forall step_names_ok pi2 -> is_ident l1 = true -> is_ident l2 = true ->
+  impl_fresh pi1 l1 = impl_fresh pi2 l2 -> map frame pi1 = map frame pi2 /\ l1 = l2.
+Proof.
+  intros F1 F2 H1 H2 E. unfold impl_fresh, local_label, MACRO_SEPARATOR_STRING in E.
+  assert (K : forall pi l, Forall step_names_ok pi -> is_ident l = true ->
+              split "-" (render_path pi ++ "---" ++ l) = dashes (match pi with [] => [""] | _ => map frame pi end) l).
+  { intros pi l F Hl. assert (Nl : nochar "-" l = true) by (apply ident_nochar; auto).
+    rewrite render_path_join by (eapply Forall_impl; [|exact F]; intros ? (? & ? & ?); auto).
+    destruct pi as [|s pi]; [simpl; now rewrite (split_nochar _ _ Nl)|].
+    apply split_dashes; [|exact Nl|discriminate]. apply Forall_forall. intros f Hf. apply in_map_iff in Hf as (x & <- & Hx).
+    rewrite Forall_forall in F. now destruct (F _ Hx) as (_ & ? & _). }
+  apply (f_equal (split "-")) in E. rewrite (K _ _ F1 H1), (K _ _ F2 H2) in E. apply dashes_inj in E as [E ->]. split; [|reflexivity].
+  destruct pi1 as [|s1 p1], pi2 as [|s2 p2]; auto.
+  - simpl in E. injection E as E _. inversion F2 as [|? ? (_ & _ & N) _]; subst. congruence.
+  - simpl in E. injection E as E _. inversion F1 as [|? ? (_ & _ & N) _]; subst. congruence.
+Qed.
+
+Lemma dec_inj n m : dec n = dec m -> n = m.
+Proof.
+  unfold dec. intros H. apply (f_equal NilEmpty.uint_of_string) in H. rewrite !NilEmpty.usu in H. injection H as H.
+  now apply DecimalN.Unsigned.to_uint_inj.
+Qed.
+
+Lemma decZ_nonneg i : (0 <= i)%Z -> decZ i = dec (Z.to_N i).
+Proof. destruct i; simpl; [reflexivity | reflexivity | lia]. Qed.
+
+Lemma dec_nochar c n : ident_char c = false -> nochar c (dec n) = true.
+Proof. intros H. apply ident_nochar; [exact H | apply dec_ident]. Qed.
+
+(* MacroName.__str__ determines the name and the arity *)
+Lemma macro_name_str_inj n1 n2 :
+  dotted_ident (fst n1) = true -> dotted_ident (fst n2) = true -> macro_name_str n1 = macro_name_str n2 -> n1 = n2.
+Proof.
+  destruct n1 as [a1 k1], n2 as [a2 k2]. simpl. intros D1 D2 E. unfold macro_name_str in E. simpl in E.
+  assert (P1 : nochar "(" a1 = true) by (apply dotted_nochar; [reflexivity | discriminate | exact D1]).
+  assert (P2 : nochar "(" a2 = true) by (apply dotted_nochar; [reflexivity | discriminate | exact D2]).
+  assert (Q : forall k, nochar "(" (dec k ++ ")") = true) by (intros k; rewrite nochar_app, dec_nochar; reflexivity).
+  apply (f_equal (split "(")) in E.
+  destruct (k1 =? 0)%N eqn:E1, (k2 =? 0)%N eqn:E2.
+  - rewrite !split_nochar in E by assumption. apply N.eqb_eq in E1, E2. injection E as ->. congruence.
+  - rewrite (split_nochar _ _ P1) in E. change (a2 ++ "(" ++ dec k2 ++ ")") with (a2 ++ String "(" (dec k2 ++ ")")) in E.
+    rewrite (split_app_sep _ _ _ P2), (split_nochar _ _ (Q k2)) in E. discriminate.
+  - rewrite (split_nochar _ _ P2) in E. change (a1 ++ "(" ++ dec k1 ++ ")") with (a1 ++ String "(" (dec k1 ++ ")")) in E.
+    rewrite (split_app_sep _ _ _ P1), (split_nochar _ _ (Q k1)) in E. discriminate.
+  - change (a1 ++ "(" ++ dec k1 ++ ")") with (a1 ++ String "(" (dec k1 ++ ")")) in E.
+    change (a2 ++ "(" ++ dec k2 ++ ")") with (a2 ++ String "(" (dec k2 ++ ")")) in E.
+    rewrite (split_app_sep _ _ _ P1), (split_app_sep _ _ _ P2), !split_nochar in E by apply Q.
+    injection E as -> E. apply (f_equal (split ")")) in E.
+    change (dec k1 ++ ")") with (dec k1 ++ String ")" "") in E. change (dec k2 ++ ")") with (dec k2 ++ String ")" "") in E.
+    rewrite !split_app_sep in E by (apply dec_nochar; reflexivity). injection E as E. apply dec_inj in E. congruence.
+Qed.
+
+Lemma nochar_single c x : c <> x -> nochar c (String x "") = true.
+Proof.
+  intros H. unfold nochar. cbn [string_forall]. rewrite andb_true_r. apply negb_true_iff. apply Ascii.eqb_neq. congruence.
+Qed.
+
+Lemma macro_name_str_nochar c n :
+  ident_char c = false -> c <> "."%char -> c <> "("%char -> c <> ")"%char -> dotted_ident (fst n) = true ->
+  nochar c (macro_name_str n) = true.
+Proof.
+  intros H1 H2 H3 H4 Hd. unfold macro_name_str. destruct (snd n =? 0)%N; [now apply dotted_nochar|].
+  rewrite !nochar_app, (dotted_nochar c _ H1 H2 Hd), (dec_nochar c _ H1), !nochar_single; auto.
+Qed.
+
+(* what identifies one call: file short name, line, repetition index, macro name and arity *)
+Definition frame_data (s : step) : option (string * N * option Z * macro_name) :=
+  match sp_call s, sp_rep s with
+  | SMacroCall name args pos, _ => Some (cp_short pos, cp_line pos, None, call_name name args)
+  | SRepCall _ _ name args pos, r => Some (cp_short pos, cp_line pos, r, call_name name args)
+  | _, _ => None
+  end.
+
+(* a step as the preprocessor makes them on a well-formed tree *)
+Definition step_wf (s : step) : Prop :=
+  match sp_call s with
+  | SMacroCall name _ pos => is_ident (cp_short pos) = true /\ dotted_ident name = true
+  | SRepCall _ _ name _ pos => is_ident (cp_short pos) = true /\ dotted_ident name = true /\
+                               match sp_rep s with Some i => (0 <= i)%Z | None => True end
+  | _ => False
+  end.
+
+Lemma split_call_frame short line mstr :
+  nochar ":" short = true -> nochar ":" mstr = true ->
+  split ":" ((short ++ ":l" ++ dec line) ++ ":" ++ mstr) = [short; "l" ++ dec line; mstr].
+Proof.
+  intros H1 H2. rewrite !string_app_assoc. change (":l" ++ dec line ++ ":" ++ mstr) with (String ":" (("l" ++ dec line) ++ String ":" mstr)).
+  rewrite (split_app_sep _ _ _ H1), split_app_sep, (split_nochar _ _ H2); [reflexivity|].
+  rewrite nochar_app, dec_nochar; reflexivity.
+Qed.
+
+Lemma split_rep_frame short line i mstr :
+  nochar ":" short = true -> nochar ":" mstr = true ->
+  split ":" ((short ++ ":l" ++ dec line) ++ ":rep" ++ dec i ++ ":" ++ mstr) = [short; "l" ++ dec line; "rep" ++ dec i; mstr].
+Proof.
+  intros H1 H2. rewrite !string_app_assoc.
+  change (":l" ++ dec line ++ ":rep" ++ dec i ++ ":" ++ mstr)
+    with (String ":" (("l" ++ dec line) ++ String ":" (("rep" ++ dec i) ++ String ":" mstr))).
+  rewrite (split_app_sep _ _ _ H1), split_app_sep, split_app_sep, (split_nochar _ _ H2); [reflexivity| |];
+    rewrite nochar_app, dec_nochar; reflexivity.
+Qed.
+
+Lemma call_name_dotted name args : dotted_ident name = true -> dotted_ident (fst (call_name name args)) = true.
+Proof. auto. Qed.
+
+(* C03_fresh, part 2: the frame determines file, line, repetition index, macro name and arity *)
+Theorem frame_injective s1 s2 : step_wf s1 -> step_wf s2 -> frame s1 = frame s2 -> frame_data s1 = frame_data s2.
+Proof.
+  unfold step_wf, frame, frame_data, short_str. intros W1 W2 E. apply (f_equal (split ":")) in E.
+  assert (NC : forall name args, dotted_ident name = true -> nochar ":" (macro_name_str (call_name name args)) = true).
+  { intros. apply macro_name_str_nochar; try discriminate; auto. }
+  assert (NS : forall p, is_ident (cp_short p) = true -> nochar ":" (cp_short p) = true) by (intros; now apply ident_nochar).
+  assert (DI : forall a b, "l" ++ dec a = "l" ++ dec b -> a = b) by (intros a b H; injection H as H; now apply dec_inj).
+  assert (MI : forall n1 a1 n2 a2, dotted_ident n1 = true -> dotted_ident n2 = true ->
+                 macro_name_str (call_name n1 a1) = macro_name_str (call_name n2 a2) -> call_name n1 a1 = call_name n2 a2).
+  { intros. apply macro_name_str_inj; auto. }
+  destruct (sp_call s1) as [| | | |n1 a1 p1|t1 it1 n1 a1 p1| |]; try contradiction;
+  destruct (sp_call s2) as [| | | |n2 a2 p2|t2 it2 n2 a2 p2| |]; try contradiction.
+  - destruct W1 as [S1 D1], W2 as [S2 D2]. rewrite !split_call_frame in E by auto.
+    injection E as -> E1 E2. apply dec_inj in E1. apply MI in E2; auto. congruence.
+  - destruct W1 as [S1 D1], W2 as (S2 & D2 & R2). destruct (sp_rep s2) as [i2|].
+    + rewrite decZ_nonneg in E by exact R2. rewrite split_call_frame, split_rep_frame in E by auto. discriminate.
+    + rewrite !split_call_frame in E by auto. injection E as -> E1 E2. apply dec_inj in E1. apply MI in E2; auto. congruence.
+  - destruct W1 as (S1 & D1 & R1), W2 as [S2 D2]. destruct (sp_rep s1) as [i1|].
+    + rewrite decZ_nonneg in E by exact R1. rewrite split_call_frame, split_rep_frame in E by auto. discriminate.
+    + rewrite !split_call_frame in E by auto. injection E as -> E1 E2. apply dec_inj in E1. apply MI in E2; auto. congruence.
+  - destruct W1 as (S1 & D1 & R1), W2 as (S2 & D2 & R2). destruct (sp_rep s1) as [i1|], (sp_rep s2) as [i2|].
+    + rewrite !decZ_nonneg in E by assumption. rewrite !split_rep_frame in E by auto.
+      injection E as -> E1 E3 E2. apply dec_inj in E1. apply MI in E2; auto. apply dec_inj in E3.
+      assert (i1 = i2) by lia. congruence.
+    + rewrite decZ_nonneg in E by assumption. rewrite split_call_frame, split_rep_frame in E by auto. discriminate.
+    + rewrite decZ_nonneg in E by assumption. rewrite split_call_frame, split_rep_frame in E by auto. discriminate.
+    + rewrite !split_call_frame in E by auto. injection E as -> E1 E2. apply dec_inj in E1. apply MI in E2; auto. congruence.
+Qed.
+
+Lemma step_wf_names_ok s : step_wf s -> step_names_ok s.
+Proof.
+  unfold step_wf, step_names_ok, call_step, frame, short_str. intros W.
+  assert (ND : forall name args, dotted_ident name = true -> nochar "-" (macro_name_str (call_name name args)) = true).
+  { intros. apply macro_name_str_nochar; try discriminate; auto. }
+  assert (NE : forall a b, (a ++ ":l" ++ b) <> "") by (intros [|? ?] b; discriminate).
+  destruct (sp_call s) as [| | | |n a p|t it n a p| |]; try contradiction.
+  - destruct W as [S Dn]. split; [reflexivity|]. split.
+    + rewrite !nochar_app, (ident_nochar "-" _ eq_refl S), dec_nochar, ND by auto. reflexivity.
+    + intros E. destruct (cp_short p); discriminate.
+  - destruct W as (S & Dn & R). split; [reflexivity|]. destruct (sp_rep s) as [i|]; split.
+    + rewrite decZ_nonneg by exact R. rewrite !nochar_app, (ident_nochar "-" _ eq_refl S), !dec_nochar, ND by auto. reflexivity.
+    + intros E. destruct (cp_short p); discriminate.
+    + rewrite !nochar_app, (ident_nochar "-" _ eq_refl S), dec_nochar, ND by auto. reflexivity.
+    + intros E. destruct (cp_short p); discriminate.
+Qed.
+
+(* C03_fresh: the names generated for local labels are not names a program can spell, and two of them are equal only
+   for the same label of expansions reached through the same calls (same file, line, repetition index, macro) *)
+Theorem fresh_names pi1 l1 pi2 l2 :
+  Forall step_wf pi1 -> Forall step_wf pi2 -> is_ident l1 = true -> is_ident l2 = true ->
+  user_name (impl_fresh pi1 l1) = false /\
+  (impl_fresh pi1 l1 = impl_fresh pi2 l2 -> map frame_data pi1 = map frame_data pi2 /\ l1 = l2).
+Proof.
+  intros F1 F2 H1 H2. split; [apply local_label_not_user|]. intros E.
+  destruct (impl_fresh_injective pi1 l1 pi2 l2) as [Ef El]; auto.
+  - eapply Forall_impl; [|exact F1]. apply step_wf_names_ok.
+  - eapply Forall_impl; [|exact F2]. apply step_wf_names_ok.
+  - split; [|exact El]. clear E El. revert pi2 F2 Ef. induction F1 as [|s1 p1 W1 _ IH]; intros [|s2 p2] F2 Ef; try discriminate.
+    + reflexivity.
+    + simpl in Ef. injection Ef as E1 E2. inversion F2; subst. simpl. f_equal; [now apply frame_injective | auto].
+Qed.
+
+(* ------------------------------------------------------------------------------------------ *)
+(** * J. Several files: the same tree at other code positions *)
+
+(* Parsing the same statements from several files (or from one) gives the same tree except for the code positions
+   (file, short name, line) of statements and macros: [tree_repos phi D] for the map phi of positions. *)
+Definition stmt_repos (phi : code_pos -> code_pos) (s : stmt) : stmt :=
+  match s with
+  | SFlipJump f j p => SFlipJump f j (phi p)
+  | SWordFlip a v r p => SWordFlip a v r (phi p)
+  | SPad e p => SPad e (phi p)
+  | SLabel n p => SLabel n (phi p)
+  | SMacroCall n a p => SMacroCall n a (phi p)
+  | SRepCall t i n a p => SRepCall t i n a (phi p)
+  | SSegment e p => SSegment e (phi p)
+  | SReserve e p => SReserve e (phi p)
+  end.
+
+Definition macro_repos phi (m : macro) : macro :=
+  mkmacro (m_params m) (m_locals m) (map (stmt_repos phi) (m_ops m)) (m_ns m) (phi (m_pos m)).
+Definition tree_repos phi (D : macro_dict) : macro_dict := map (fun nm => (fst nm, macro_repos phi (snd nm))) D.
+Definition step_repos phi (s : step) : step := mkstep (sp_index s) (stmt_repos phi (sp_call s)) (sp_rep s).
+
+Lemma find_macro_repos phi D mn : find_macro (tree_repos phi D) mn = option_map (macro_repos phi) (find_macro D mn).
+Proof. induction D as [|[k m] D IH]; simpl; [reflexivity|]. destruct (macro_name_eqb k mn); [reflexivity | exact IH]. Qed.
+
+Definition omap_repos phi (r : option (list stmt)) : option (list stmt) := option_map (map (stmt_repos phi)) r.
+
+Lemma app2_repos phi a b : app2 (omap_repos phi a) (omap_repos phi b) = omap_repos phi (app2 a b).
+Proof. destruct a, b; simpl; try reflexivity. now rewrite map_app. Qed.
+
+Section Repos.
+Variable phi : code_pos -> code_pos.
+Variables exp exp' : macro_name -> list expr -> path -> option (list stmt).
+Hypothesis Hexp : forall mn args pi, exp' mn args (map (step_repos phi) pi) = omap_repos phi (exp mn args pi).
+
+Lemma unroll_repos mn sg it args pi k c n : forall i,
+  unroll exp' mn sg it args (map (step_repos phi) pi) k (stmt_repos phi c) n i =
+  omap_repos phi (unroll exp mn sg it args pi k c n i).
+Proof.
+  induction n as [|n IH]; intros i; simpl; [reflexivity|]. rewrite IH, <- app2_repos. f_equal.
+  rewrite <- Hexp. f_equal. now rewrite map_app.
+Qed.
+
+Lemma inline_stmt_repos sg pi k s :
+  inline_stmt exp' sg (map (step_repos phi) pi) k (stmt_repos phi s) = omap_repos phi (inline_stmt exp sg pi k s).
+Proof.
+  destruct s; simpl; try reflexivity.
+  - now destruct (rename_label sg name).
+  - rewrite <- Hexp. f_equal. now rewrite map_app.
+  - destruct (const_value (subst sg times)); [|reflexivity].
+    apply (unroll_repos (call_name name args) sg iter args pi k (SRepCall times iter name args pos)).
+Qed.
+
+Lemma inline_ops_repos sg pi ops : forall k,
+  inline_ops exp' sg (map (step_repos phi) pi) k (map (stmt_repos phi) ops) = omap_repos phi (inline_ops exp sg pi k ops).
+Proof. induction ops as [|s ops IH]; intros k; simpl; [reflexivity|]. now rewrite inline_stmt_repos, IH, app2_repos. Qed.
+End Repos.
+
+(* inlining the re-positioned tree = inlining the tree with the names that carry the new positions *)
+Lemma inline_call_repos phi fresh D n : forall mn args pi,
+  inline_call fresh (tree_repos phi D) n mn args (map (step_repos phi) pi) =
+  omap_repos phi (inline_call (fun p => fresh (map (step_repos phi) p)) D n mn args pi).
+Proof.
+  induction n as [|n IH]; intros mn args pi; simpl; [reflexivity|]. rewrite find_macro_repos.
+  destruct (find_macro D mn) as [m|]; simpl; [|reflexivity].
+  exact (inline_ops_repos phi _ _ IH (lookup (bind_macro (fun p => fresh (map (step_repos phi) p)) m args pi)) pi (m_ops m) 0%nat).
+Qed.
+
+Lemma inline_repos phi fresh D n :
+  inline fresh (tree_repos phi D) n = omap_repos phi (inline (fun p => fresh (map (step_repos phi) p)) D n).
+Proof.
+  unfold inline, main_ops. rewrite find_macro_repos. destruct (find_macro D main_macro_name) as [m|]; simpl; [|reflexivity].
+  exact (inline_ops_repos phi _ _ (inline_call_repos phi fresh D n) (fun _ => None) [] (m_ops m) 0%nat).
+Qed.
+
+(* the code positions of primitive statements are never looked at *)
+Lemma run_ops_repos phi w D' rec' pd prefix P : Forall (fun s => stmt_primitive s = true) P -> forall st,
+  run_ops w D' rec' pd prefix (map (stmt_repos phi) P) st = run_ops w D' rec' pd prefix P st.
+Proof.
+  induction 1 as [|s P Hs _ IH]; intros st; simpl; [reflexivity|].
+  assert (E : step_op w D' rec' pd prefix (stmt_repos phi s) st = step_op w D' rec' pd prefix s st) by (destruct s; try discriminate; reflexivity).
+  rewrite E. destruct (step_op w D' rec' pd prefix s st); simpl; auto.
+Qed.
+
+Lemma run_ops_prim_indep w D1 D2 rec1 rec2 pd prefix P : Forall (fun s => stmt_primitive s = true) P -> forall st,
+  run_ops w D1 rec1 pd prefix P st = run_ops w D2 rec2 pd prefix P st.
+Proof.
+  induction 1 as [|s P Hs _ IH]; intros st; simpl; [reflexivity|]. rewrite !(step_op_prim w) by exact Hs.
+  destruct (on_core st (step_core w pd s (ps_core st))); simpl; auto.
+Qed.
+
+Lemma resolve_prim_repos phi w P depth : Forall (fun s => stmt_primitive s = true) P ->
+  resolve_macros w (prim_tree (map (stmt_repos phi) P)) depth = resolve_macros w (prim_tree P) depth.
+Proof.
+  intros F. unfold resolve_macros, resolve_main. rewrite !resolve_macro_aux_eq. simpl. unfold macro_body. simpl.
+  rewrite (run_ops_repos phi _ _ _ _ _ _ F). unfold get_params_dictionary. simpl.
+  now rewrite (run_ops_prim_indep w _ (prim_tree P) _ (rec_of w (prim_tree P) (N.to_nat depth)) _ _ _ F).
+Qed.
+
+(* C03_split.  A program read from several files is the tree D of the one-file program at other code positions phi.
+   It expands to the same op list (and the same labels but for the macro-start labels) as the macro-free program
+   obtained by inlining D itself with the local-label names that carry the new positions: the file split changes
+   nothing but the file:line components of the generated names. *)
+Theorem split_correct phi w D depth ops lbls P :
+  wf_tree (tree_repos phi D) = true ->
+  resolve_macros w (tree_repos phi D) depth = ROk (ops, lbls) ->
+  inline (fun p => impl_fresh (map (step_repos phi) p)) D (N.to_nat depth) = Some P ->
+  Forall (fun s => stmt_primitive s = true) P /\
+  exists lbls', resolve_macros w (prim_tree P) depth = ROk (ops, lbls') /\
+                forall s, is_start_label s = false -> dict_get lbls' s = dict_get lbls s.
+Proof.
+  intros WF Hr Hi.
+  assert (Hi' : inline impl_fresh (tree_repos phi D) (N.to_nat depth) = Some (map (stmt_repos phi) P))
+    by (rewrite inline_repos, Hi; reflexivity).
+  destruct (inline_correct w _ depth ops lbls _ WF Hr Hi') as [F (lbls' & R & A)].
+  assert (FP : Forall (fun s => stmt_primitive s = true) P).
+  { apply Forall_forall. intros s Hs. rewrite Forall_forall in F. specialize (F _ (in_map _ _ _ Hs)). now destruct s. }
+  split; [exact FP|]. exists lbls'. split; [|exact A]. now rewrite <- (resolve_prim_repos phi w P depth FP).
+Qed.
+
+(* concatenating bodies: the statements of the second part are expanded in the state the first part leaves *)
+Theorem run_ops_concat w D rec pd prefix ops1 ops2 st :
+  run_ops w D rec pd prefix (ops1 ++ ops2) st = rbind (run_ops w D rec pd prefix ops1 st) (run_ops w D rec pd prefix ops2).
+Proof. apply run_ops_app. Qed.
+
+(* ------------------------------------------------------------------------------------------ *)
+(** * K. Namespace resolution, and statements for Properties/C03.v *)
+
+Lemma lstrip_iter k rest : lstrip_dots rest = (O, rest) -> lstrip_dots (Nat.iter k (String ".") rest) = (k, rest).
+Proof. intros H. induction k as [|k IH]; simpl; [exact H|]. now rewrite IH. Qed.
+
+(* FJParser.base_name_to_ns_full_name implements "k+1 leading dots strip k levels"; more dots than levels is the
+   recorded syntax error *)
+Theorem ns_resolve_correct curr k rest :
+  lstrip_dots rest = (O, rest) ->
+  match ns_resolve curr (S k) rest with
+  | Some s => base_name_to_ns_full_name curr (String "." (Nat.iter k (String ".") rest)) = NsName s
+  | None => exists r, base_name_to_ns_full_name curr (String "." (Nat.iter k (String ".") rest)) = NsTooManyDots r
+  end.
+Proof.
+  intros H. unfold base_name_to_ns_full_name, ns_resolve. simpl lstrip_dots. rewrite (lstrip_iter k rest H).
+  destruct (k <=? List.length curr)%nat eqn:E.
+  - apply Nat.leb_le in E. assert (E2 : (List.length curr <? k)%nat = false) by (apply Nat.ltb_ge; exact E). rewrite E2.
+    assert (E3 : (Z.of_nat (List.length curr) - Z.of_nat k <? 0)%Z = false) by (apply Z.ltb_ge; lia). rewrite E3.
+    unfold ns_join. replace (Z.to_nat (Z.of_nat (List.length curr) - Z.of_nat k)) with (List.length curr - k)%nat by lia. reflexivity.
+  - apply Nat.leb_gt in E. assert (E2 : (List.length curr <? k)%nat = true) by (apply Nat.ltb_lt; exact E). rewrite E2. eauto.
+Qed.
+
+Theorem subst_once_iff (sg : msubst) (e : expr) (L : string -> option Z) (v : Z) :
+  (exists e', eval_new sg e = Ok e' /\ exact_eval L e' = Ok v) <-> exact_eval (env_subst L sg) e = Ok v.
+Proof.
+  split.
+  - intros (e' & H1 & H2). exact (subst_once_sound sg e e' L v H1 H2).
+  - exact (subst_once_complete sg e L v).
+Qed.
+
+Theorem iterator_name_fresh prefix pos it : is_ident it = true ->
+  niceb (hygienic_iterator prefix pos it) = false /\
+  (forall s, dotted_ident s = true -> s <> hygienic_iterator prefix pos it) /\
+  (forall p l, is_ident l = true -> local_label p l <> hygienic_iterator prefix pos it).
+Proof.
+  intros H. pose proof (hyg_not_nice prefix pos it H) as N. split; [exact N|]. split.
+  - intros s Hs. apply nice_neq; [now apply dotted_nice | exact N].
+  - intros p l Hl. apply nice_neq; [now apply local_label_nice | exact N].
+Qed.
+
+Definition rename_expr (rho : string -> string) : expr -> expr :=
+  fix go e := match e with EInt z => EInt z | ELbl s => ELbl (rho s) | EOp o args => EOp o (map go args) end.
+Definition rename_lop (rho : string -> string) (o : lop) : lop :=
+  match o with
+  | LFlipJump f j => LFlipJump (rename_expr rho f) (rename_expr rho j)
+  | LWordFlip a v r => LWordFlip (rename_expr rho a) (rename_expr rho v) (rename_expr rho r)
+  | o => o
+  end.
+
+Lemma rename_id_ops ops : map (rename_lop (fun s => s)) ops = ops.
+Proof.
+  assert (E : forall e, rename_expr (fun s => s) e = e).
+  { induction e as [z|s|o args IH] using expr_ind'; simpl; try reflexivity. f_equal.
+    induction IH as [|a t Ha _ IHt]; simpl; [reflexivity|]. now rewrite Ha, IHt. }
+  induction ops as [|o ops IHo]; simpl; [reflexivity|]. rewrite IHo. f_equal. destruct o; simpl; now rewrite ?E.
+Qed.
+
+(* the conclusion of "expansion = inlining up to an injective renaming rho of generated names" *)
+Definition expands_alike (w : Z) (depth : N) (ops : list lop) (lbls : list (string * Z)) (P : list stmt) : Prop :=
+  exists ops' lbls' (rho : string -> string),
+    resolve_macros w (prim_tree P) depth = ROk (ops', lbls') /\
+    ops' = map (rename_lop rho) ops /\
+    (forall s t, dict_get lbls s <> None -> dict_get lbls t <> None -> rho s = rho t -> s = t) /\
+    (forall s, user_name s = true -> rho s = s) /\
+    (forall s, is_start_label s = false -> dict_get lbls' (rho s) = dict_get lbls s).
+
+Theorem inline_correct_id_renaming w D depth ops lbls P :
+  wf_tree D = true ->
+  resolve_macros w D depth = ROk (ops, lbls) ->
+  inline impl_fresh D (N.to_nat depth) = Some P ->
+  expands_alike w depth ops lbls P.
+Proof.
+  intros WF Hr Hi. destruct (inline_correct w D depth ops lbls P WF Hr Hi) as [_ (l' & R & A)].
+  exists ops, l', (fun s => s). rewrite rename_id_ops. auto.
+Qed.
+
+(* ------------------------------------------------------------------------------------------ *)
+(** * L. On the expansion paths of a well-formed tree the code's naming is injective *)
+
+Definition step_valid (body : list stmt) (s : step) : Prop :=
+  nth_error body (sp_index s) = Some (sp_call s) /\
+  match sp_call s with
+  | SMacroCall _ _ _ => sp_rep s = None
+  | SRepCall _ _ _ _ _ => exists i, sp_rep s = Some i /\ (0 <= i)%Z
+  | _ => False
+  end.
+
+Definition callee (s : stmt) : macro_name :=
+  match s with SMacroCall n a _ | SRepCall _ _ n a _ => call_name n a | _ => main_macro_name end.
+
+(* the paths the inliner / the preprocessor can reach: each step is a call statement of the body reached so far *)
+Fixpoint valid_from (D : macro_dict) (body : list stmt) (pi : path) : Prop :=
+  match pi with
+  | [] => True
+  | s :: r => step_valid body s /\ exists m, find_macro D (callee (sp_call s)) = Some m /\ valid_from D (m_ops m) r
+  end.
+Definition valid_path (D : macro_dict) (pi : path) : Prop := valid_from D (main_ops D) pi.
+
+Definition body_ok (body : list stmt) : Prop :=
+  forallb wf_stmt body = true /\ NoDup (flat_map call_site body).
+
+Lemma step_valid_wf body s : body_ok body -> step_valid body s -> step_wf s.
+Proof.
+  intros [Hw _] [Hn Hr]. apply nth_error_In in Hn. rewrite forallb_forall in Hw. apply Hw in Hn. unfold step_wf.
+  destruct (sp_call s); try contradiction; simpl in Hn.
+  - apply andb_prop in Hn as [Hn Hp]. apply andb_prop in Hn as [Hd _]. auto.
+  - apply andb_prop in Hn as [Hn Hp]. apply andb_prop in Hn as [Hn _]. apply andb_prop in Hn as [_ Hd].
+    destruct Hr as (i & -> & Hi). auto.
+Qed.
+
+Lemma call_site_unique body : NoDup (flat_map call_site body) -> forall k1 k2 c1 c2 x,
+  nth_error body k1 = Some c1 -> nth_error body k2 = Some c2 -> call_site c1 = [x] -> call_site c2 = [x] -> k1 = k2.
+Proof.
+  induction body as [|c body IH]; intros ND k1 k2 c1 c2 x H1 H2 E1 E2; [destruct k1; discriminate|].
+  simpl in ND. destruct k1 as [|k1], k2 as [|k2]; simpl in H1, H2.
+  - reflexivity.
+  - injection H1 as ->. exfalso. rewrite E1 in ND. inversion ND as [|? ? Hnin _]; subst. apply Hnin. apply in_flat_map.
+    exists c2. split; [eapply nth_error_In; eauto | rewrite E2; simpl; auto].
+  - injection H2 as ->. exfalso. rewrite E2 in ND. inversion ND as [|? ? Hnin _]; subst. apply Hnin. apply in_flat_map.
+    exists c1. split; [eapply nth_error_In; eauto | rewrite E1; simpl; auto].
+  - f_equal. eapply IH; eauto. eapply NoDup_app_r; eauto.
+Qed.
+
+Lemma same_site body s1 s2 :
+  body_ok body -> step_valid body s1 -> step_valid body s2 -> frame_data s1 = frame_data s2 -> s1 = s2.
+Proof.
+  intros [_ ND] [N1 R1] [N2 R2] E. destruct s1 as [k1 c1 r1], s2 as [k2 c2 r2]. simpl in *. unfold frame_data in E. simpl in E.
+  assert (K : k1 = k2).
+  { destruct c1; try contradiction; destruct c2; try contradiction; injection E; intros;
+      eapply (call_site_unique body ND k1 k2 _ _ _ N1 N2); simpl; try reflexivity; unfold short_str; congruence. }
+  subst k2. rewrite N1 in N2. injection N2 as <-. f_equal.
+  destruct c1; try contradiction.
+  - congruence.
+  - injection E; intros; assumption.
+Qed.
+
+Lemma find_macro_body_ok D mn m : wf_tree D = true -> find_macro D mn = Some m -> body_ok (m_ops m).
+Proof.
+  intros WF H. destruct (find_macro_wf D WF _ _ H) as (k & Hk & _). unfold wf_entry in Hk. simpl in Hk.
+  apply andb_prop in Hk as [Hk _]. apply andb_prop in Hk as [_ Hk]. unfold wf_macro in Hk.
+  apply andb_prop in Hk as [Hk Hn]. apply andb_prop in Hk as [_ Hs]. split; [exact Hs | now apply nodupb_NoDup].
+Qed.
+
+Lemma valid_paths_equal D : wf_tree D = true -> forall pi1 body pi2,
+  body_ok body -> valid_from D body pi1 -> valid_from D body pi2 -> map frame_data pi1 = map frame_data pi2 -> pi1 = pi2.
+Proof.
+  intros WF. induction pi1 as [|s1 r1 IH]; intros body [|s2 r2] B V1 V2 E; try discriminate; [reflexivity|].
+  simpl in E. injection E as E1 E2. destruct V1 as [S1 (m1 & F1 & V1)], V2 as [S2 (m2 & F2 & V2)].
+  assert (s1 = s2) by (eapply same_site; eauto). subst s2. rewrite F1 in F2. injection F2 as <-. f_equal.
+  apply (IH (m_ops m1) r2); [eapply find_macro_body_ok; eauto | exact V1 | exact V2 | exact E2].
+Qed.
+
+Lemma valid_steps_wf D : wf_tree D = true -> forall pi body, body_ok body -> valid_from D body pi -> Forall step_wf pi.
+Proof.
+  intros WF. induction pi as [|s r IH]; intros body B V; constructor.
+  - destruct V as [S _]. eapply step_valid_wf; eauto.
+  - destruct V as [_ (m & F & V)]. apply (IH (m_ops m)); [eapply find_macro_body_ok; eauto | exact V].
+Qed.
+
+Lemma main_body_ok D : wf_tree D = true -> body_ok (main_ops D).
+Proof.
+  intros WF. unfold main_ops. destruct (find_macro D main_macro_name) eqn:E.
+  - eapply find_macro_body_ok; eauto.
+  - split; [reflexivity | constructor].
+Qed.
+
+(* C03_fresh on the paths that occur: in a well-formed tree, two local labels get the same generated name only if they
+   are the same label of the same expansion *)
+Theorem fresh_on_valid_paths D pi1 l1 pi2 l2 :
+  wf_tree D = true -> valid_path D pi1 -> valid_path D pi2 -> is_ident l1 = true -> is_ident l2 = true ->
+  impl_fresh pi1 l1 = impl_fresh pi2 l2 -> pi1 = pi2 /\ l1 = l2.
+Proof.
+  intros WF V1 V2 H1 H2 E. pose proof (main_body_ok D WF) as B.
+  destruct (fresh_names pi1 l1 pi2 l2) as [_ K]; auto; try (eapply valid_steps_wf; eauto).
+  destruct (K E) as [Ef El]. split; [|exact El]. eapply valid_paths_equal; eauto.
+Qed.
